@@ -410,7 +410,7 @@ func (a *Act) applyContract(st *State, con *Contract, f *ssa.Function, sig *type
 		post.vars[k] = v
 	}
 	bindResults(post.vars, res, sig)
-	enss := append(append([]*Clause(nil), con.Represents...), con.Ensures...)
+	enss := append(append(append([]*Clause(nil), con.Represents...), con.Establishes...), con.Ensures...)
 	if icon != nil {
 		bindResults(ivars, res, sig)
 		enss = append(enss, icon.Ensures...)
@@ -651,6 +651,9 @@ func (a *Act) doReturn(st *State, vals []Val, pos token.Pos, ri *ssa.Return) {
 	for _, c := range a.con.Represents {
 		a.establishRepresents(st, c, env)
 	}
+	for _, c := range a.con.Establishes {
+		a.establishRepresents(st, c, env)
+	}
 	ens := a.con.Ensures
 	if a.ifaceCon != nil {
 		ens = append(append([]*Clause(nil), a.ifaceCon.Ensures...), ens...)
@@ -786,6 +789,9 @@ func (a *Act) frameCheck(st *State, env *SpecEnv, pos token.Pos, ri *ssa.Return)
 	}
 	for _, k := range sortedKeys(a.written) {
 		if strings.HasPrefix(k, "IT:") || k == "G:chancap" || k == "G:held" || k == "G:lockuses" {
+			continue
+		}
+		if a.modelFieldKey(k) {
 			continue
 		}
 		srt := vc.heapSorts[k]
@@ -950,6 +956,23 @@ func (a *Act) placeKeys(m *Clause, env *SpecEnv, allowed map[string][]string, an
 			ct = f.T
 		}
 	}
+}
+
+// modelFieldKey reports whether heap key k is a model field this function (re)defines via represents/establishes.
+func (a *Act) modelFieldKey(k string) bool {
+	if a.con == nil {
+		return false
+	}
+	for _, lst := range [][]*Clause{a.con.Represents, a.con.Establishes} {
+		for _, c := range lst {
+			if b, ok := c.Expr.(SBin); ok {
+				if call, ok := b.L.(SCall); ok && "G:"+call.Fun == k {
+					return true
+				}
+			}
+		}
+	}
+	return false
 }
 
 func (a *Act) establishRepresents(st *State, c *Clause, env *SpecEnv) {
